@@ -28,12 +28,15 @@ PROOF_INTERNAL = re.compile(r"\.(loop_invariant_base|loop_invariant_step|loop_as
 # naming the loop; they are told apart from function-level frame violations by description.
 
 
+GLOBALS_IN_FRAMES = {"verif_errno", "errno"}
+
+
 class Job:
     def __init__(self, name, driver, entry, enforce=None, replace=(), mode="contract",
                  unwind=None, label="proof", defines=None, min_post=1, min_lis=0,
                  timeout=900, tiers=("quick", "thorough"), solver=None, note="",
                  replay=None, objbits=None, extra_cbmc=(), fallback=True, maxw=None,
-                 expect_fail=(), src=None, unwindset=None, cost=10, family=None, optional=False, canary_from=None, split=0):
+                 expect_fail=(), src=None, unwindset=None, cost=10, family=None, optional=False, canary_from=None, split=0, loop_contracts=True):
         self.name = name; self.driver = driver; self.entry = entry
         self.enforce = enforce; self.replace = list(replace); self.mode = mode
         self.unwind = unwind; self.label = label; self.defines = dict(defines or {})
@@ -41,7 +44,7 @@ class Job:
         self.tiers = tiers; self.solver = solver; self.note = note; self.replay = replay
         self.objbits = objbits; self.extra_cbmc = list(extra_cbmc); self.fallback = fallback
         self.maxw = maxw; self.expect_fail = list(expect_fail); self.src = src
-        self.unwindset = unwindset; self.cost = cost; self.family = family; self.optional = optional; self.canary_from = canary_from; self.split = split
+        self.unwindset = unwindset; self.cost = cost; self.family = family; self.optional = optional; self.canary_from = canary_from; self.split = split; self.loop_contracts = loop_contracts
 
     def maxw_for(self, tier):
         if self.maxw is not None:
@@ -144,6 +147,8 @@ def instrument(job, inp, out, loop_contracts=True):
 
 def cbmc_cmd(job, binary, solver, props=None, trace=False, unwind=None, unwinding_assertions=True):
     cmd = ["cbmc"] + MALLOC_FLAGS + CHECK_FLAGS + ["--json-ui"]
+    if job.mode != "contract":
+        cmd.append("--drop-unused-functions")   # plain harness: only obligations reachable from the entry point
     if solver == "z3":
         cmd.append("--z3")
     elif solver == "cvc5":
@@ -196,6 +201,11 @@ def is_proof_internal(r):
         return True
     if re.search(r"\.assigns\.\d+$", name) and re.search(r"for loop|loop ", desc):
         return True
+    # DFCC reports a write that is missing from a LOOP assigns clause as <fn>.assigns.N too.  A plain local
+    # identifier is always in the function-level write set, so such a failure can only come from a loop contract.
+    m = re.match(r"Check that ([A-Za-z_]\w*) is assignable$", desc)
+    if re.search(r"\.assigns\.\d+$", name) and m and m.group(1) not in GLOBALS_IN_FRAMES:
+        return True
     return False
 
 
@@ -217,7 +227,7 @@ def execute(job, tier, builddir, maxw, solver, log):
             return None
         if job.mode == "contract":
             igb = base + suffix + ".i.gb"
-            rc, out, err, secs, to = instrument(job, gb, igb, loop_contracts)
+            rc, out, err, secs, to = instrument(job, gb, igb, loop_contracts and job.loop_contracts)
             if rc != 0 or not os.path.exists(igb):
                 res["errors"].append("goto-instrument failed: " + (out + err)[-3000:])
                 return None
@@ -317,8 +327,17 @@ def execute(job, tier, builddir, maxw, solver, log):
         res["status"] = "tool-error"
         return res
     # vacuity run: only the canary, on the fastest model finder (cadical + formula slicing)
+    canary_id = job.entry + ".assertion.1"
+    rc, out, err, secs, to = run(["cbmc", "--no-standard-checks", "--show-properties", "--json-ui", can_bin], 300)
+    try:
+        for item in json.loads(out):
+            for p in item.get("properties", []) if isinstance(item, dict) else []:
+                if p.get("description") == "canary" and p.get("name", "").startswith(job.entry + "."):
+                    canary_id = p["name"]
+    except Exception:
+        pass
     ccmd = ["cbmc"] + MALLOC_FLAGS + ["--no-standard-checks", "--slice-formula", "--sat-solver", "cadical", "--json-ui",
-                                      "--property", job.entry + ".assertion.1"]
+                                      "--property", canary_id]
     if job.objbits:
         ccmd += ["--object-bits", str(job.objbits)]
     if unwind is not None:
